@@ -286,6 +286,7 @@ def build_class(param, name, specs, rng, level_defaults=True):
     """Create a Parameterized class from specs with valid defaults; returns (cls, defaults dict)."""
     ns = {}
     defaults = {}
+    computed = []
     for i, s in enumerate(specs):
         pname = f'p{i}_{s["ptype"].lower()}'
         s['name'] = pname
@@ -299,8 +300,18 @@ def build_class(param, name, specs, rng, level_defaults=True):
             kw['allow_None'] = True
         kw['default'] = dv
         defaults[pname] = dv
+        if s['ptype'] in ('Selector', 'ListSelector') and dv is None and rng.random() < 0.6:
+            # the default is computed later (compute_default_fn), and may be an object the declaration did not list
+            new = rng.choice([f'computed{i}', 1000 + i, s['objs'][0]])
+            computed.append((pname, new if s['ptype'] == 'Selector' else [s['objs'][0], new], s, new))
+            kw['compute_default_fn'] = (lambda v=computed[-1][1]: v)
         ns[pname] = getattr(param, s['ptype'])(**kw)
     cls = type(name, (param.Parameterized,), ns)
+    for pname, value, s, new in computed:
+        cls.param[pname].compute_default()
+        defaults[pname] = value
+        if not any(new is o or (type(new) is type(o) and new == o) for o in s['objs']):
+            s['objs'].append(new)
     return cls, defaults
 
 
